@@ -42,7 +42,7 @@ func c03Sizes(tier string) (units, per, docs int) {
 	if tier == "thorough" {
 		return 3000, 20, 80
 	}
-	return 200, 10, 60
+	return 400, 20, 60
 }
 
 func c03Constructs(s *model.Schema, c *mon.Ctx) {
